@@ -533,6 +533,47 @@ def run(ctx):
             dexp.append("SET " + pyside.enc_list(sorted(str(f.id) for f in merged))); dtags.append(("merge_all result", repr((lines, exclude))))
             dcmds.append("dump"); dexp.append(("DUMP", dbside.dump(db2))); dtags.append(("tables after merge_all", repr((lines, exclude))))
         res.count("merge_all")
+        # several featuretypes_groups (oracle only; the model covers the default single group)
+        lines2 = list(lines)
+        for i, (a, b) in enumerate(exons[:4]):
+            lines2.append(gen_db.gff_line("chr1", "CDS", a, b, strand, [("ID", ["c%d" % i]), ("Parent", ["t"])]))
+        path2 = dbside.write_lines(os.path.join(ctx.scratch, "bp2.gff3"), lines2)
+        for exclude in (False, True):
+            db3, _ = dbside.py_create(path2, dbside.Cfg())
+            if db3 is None:
+                continue
+            before = {str(x["id"]): x for x in dbside.rows_of(db3)}
+            groups = r2.choice([("exon", "CDS"), ("CDS", "exon"), ("exon", "CDS", "mRNA")])
+            try:
+                with warnings.catch_warnings():
+                    warnings.simplefilter("ignore")
+                    db3.merge_all(featuretypes_groups=groups, exclude_components=exclude)
+            except Exception as ex:
+                res.oracle_failures.append(("merge_all(featuretypes_groups=%r) raised %r" % (groups, ex), {"lines": lines2}))
+                continue
+            res.evaluations += 1
+            after = {str(x["id"]): x for x in dbside.rows_of(db3)}
+            rels = set(dbside.rels_of(db3))
+            classes = {}
+            for k, x in before.items():
+                if x["featuretype"] in groups:
+                    classes.setdefault((x["seqid"], x["featuretype"], x["strand"]), []).append((x["start"], x["end"], k))
+            exp_runs = [run for ivs in classes.values() for run in runs_of(ivs) if len(run[2]) > 1]
+            new = {k: x for k, x in after.items() if k not in before}
+            ok = len(new) == len(exp_runs)
+            for a, b, members in exp_runs:
+                cand = [k for k, x in new.items() if (x["start"], x["end"]) == (a, b) and x["featuretype"] == before[members[0]]["featuretype"]]
+                if not cand:
+                    ok = False
+                    continue
+                for m_ in members:
+                    ok = ok and ((m_ not in after) if exclude else ((cand[0], m_, 1) in rels and m_ in after))
+            if not ok:
+                res.oracle_failures.append(("merge_all over several featuretype groups does not store one feature per "
+                                            "multi-member run and relate (or delete) its members",
+                                            {"lines": lines2, "groups": groups, "exclude_components": exclude,
+                                             "new": sorted(new), "remaining": sorted(after),
+                                             "expected_runs": [(a, b, m_) for a, b, m_ in exp_runs]}))
     dout = ctx.model(dcmds) if dcmds else None
     if dout is not None:
         for c, m, e, (comp, inpx) in zip(dcmds, dout, dexp, dtags):
